@@ -18,6 +18,7 @@ import (
 	"strconv"
 	"strings"
 	"sync"
+	"sync/atomic"
 	"time"
 	"unicode"
 	"unicode/utf8"
@@ -221,6 +222,36 @@ func VerifProbeStdlib() {
 		nd.Assert(strings.ToUpper(s) == strings.ToUpper(s) && len(strings.TrimSpace(" "+"x"+" ")) == 1, "upper-trim")
 		parts := strings.SplitN(s+","+s, ",", 2)
 		nd.Assert(len(parts) >= 2, "splitn-symbolic")
+	case 26: // sync.Map, atomic.Pointer, sync.Once: what a cache added to the code under test would use
+		var m sync.Map
+		k := "a" + s
+		_, ok0 := m.Load(k)
+		m.Store(k, 1)
+		m.Store("zz", 2)
+		v, ok := m.Load("a" + s)
+		_, ok3 := m.Load("b" + s)
+		nd.Assert(!ok0 && ok && v.(int) == 1 && !ok3, "syncmap-load-after-store")
+		cnt := 0
+		m.Range(func(key, value any) bool { cnt++; return true })
+		nd.Assert(cnt == 2 || s == "z" && false, "syncmap-range")
+		act, loaded := m.LoadOrStore(k, 5)
+		nd.Assert(loaded && act.(int) == 1, "syncmap-loadorstore")
+		m.Delete(k)
+		_, ok4 := m.Load(k)
+		nd.Assert(!ok4, "syncmap-delete")
+		var p atomic.Pointer[probeInner]
+		nd.Assert(p.Load() == nil, "atomic-pointer-nil")
+		p.Store(&probeInner{name: s})
+		nd.Assert(p.Load() != nil && p.Load().name == s, "atomic-pointer-round-trip")
+		var once sync.Once
+		calls := 0
+		once.Do(func() { calls++ })
+		once.Do(func() { calls++ })
+		nd.Assert(calls == 1, "once")
+	case 27: // atomic.Value reinterprets an interface's words through unsafe.Pointer: expected to be *unsupported*
+		var av atomic.Value
+		av.Store(s)
+		nd.Assert(av.Load().(string) == s, "atomic-value")
 	}
 	nd.Reach("end")
 }
